@@ -67,6 +67,9 @@ func corpus() []*lang.Node {
 		C(L([]string{"x"}, C(S("pair"), S("x"), C(S("collection")))), I(1)),
 		// fixed C21-convert-interface-query
 		C(S("call"), C(S("first"), C(S("pair"), lang.QL(&lang.Q{Op: "keyed", A: "a"}), I(1)))),
+		// seeded C22-4: the parameter survives only in the function position of a call inside the remaining argument
+		L([]string{"a"}, C(S("pair"), S("a"), L([]string{"y"}, C(C(S("add"), S("a")), S("y"))))),
+		C(S("call1"), L([]string{"a"}, C(S("pair"), S("a"), L([]string{"y"}, C(L([]string{"w"}, C(S("sub"), S("a"), S("w"))), S("y"))))), I(4)),
 	}
 }
 
@@ -120,6 +123,12 @@ func etaTemplate(r *hx.Rand) (*lang.Node, map[string]bool) {
 			feat["call-arg"] = true
 		case r.Chance(1, 5):
 			args[i] = lang.L([]string{"z"}, lang.S(r.Pick([]string{"z", ps[0]})))
+		case r.Chance(1, 4):
+			// a parameter that occurs only inside the FUNCTION position of a call (a partial application, a
+			// lambda literal or a call of those, nested 1..3 deep), under a lambda so that the argument is not
+			// itself a call: mentionsSymbol has to look into call.Function
+			args[i] = lang.L([]string{"z"}, lang.C(hideInFn(r, ps[r.Intn(k)], 1+r.Intn(3)), lang.S("z")))
+			feat["param-in-function-position"] = true
 		case r.Chance(1, 5):
 			args[i] = lang.St(r.Pick([]string{"k", "v"}))
 		default:
@@ -167,6 +176,28 @@ func etaTemplate(r *hx.Rand) (*lang.Node, map[string]bool) {
 		n = lang.C(lang.L(nil, n))
 	}
 	return n, feat
+}
+
+// hideInFn builds an expression that mentions p only below function positions: (op p) — a partial
+// application —, {w -> op p w}, or a call whose function is such an expression, depth levels deep.
+func hideInFn(r *hx.Rand, p string, depth int) *lang.Node {
+	op := r.Pick([]string{"add", "sub", "pair"})
+	if depth <= 1 {
+		if r.Bool() {
+			return lang.C(lang.S(op), lang.S(p))
+		}
+		return lang.L([]string{"w"}, lang.C(lang.S(op), lang.S(p), lang.S("w")))
+	}
+	// ((… p …) k): a call in function position whose own function hides p
+	inner := hideInFn(r, p, depth-1)
+	switch r.Intn(3) {
+	case 0:
+		return lang.C(lang.S("call1"), inner) // (call1 F): partial, applied to z by the caller
+	case 1:
+		return lang.L([]string{"v"}, lang.C(inner, lang.S("v")))
+	default:
+		return lang.C(lang.L([]string{"u"}, inner), lang.I(r.Intn(5))) // ({u -> F} 3)
+	}
 }
 
 // noargTemplate: calls without arguments, `(f)`, `((f))`, `({-> e})`, as arguments of calls inside
@@ -313,7 +344,7 @@ func main() {
 	defer worker.Close()
 	hx.Main(hx.Family{
 		Name:     "c22",
-		Rule:     "1 in 12: a call without arguments (f) / ((f)) of any function of the table, variadic (the real collection, call) or not, at the root, as an argument, in a lambda body, passed to a lambda or called again; of the rest 1 in 10: calls without arguments ((f), ((f)), ({-> e})) inside lambdas that may shadow f; 3 in 10: a lambda over one call of a global function with its parameters used in order / reordered / repeated / omitted / next to literals, lambdas or calls, bare or applied or nested under a shadowing lambda; otherwise programs from the C21 generator extended with strings, query literals and the query builders (and or typed keyed tagged) and, 1 in 3, with collection values ((collection p…) with 0..3 pairs) and the variadic call f args…, 1 in 6 with an ill-typing edit. non-trivial = Simplify returned a tree different from its argument; distinct = by hash of the program text",
+		Rule:     "1 in 12: a call without arguments (f) / ((f)) of any function of the table, variadic (the real collection, call) or not, at the root, as an argument, in a lambda body, passed to a lambda or called again; of the rest 1 in 10: calls without arguments ((f), ((f)), ({-> e})) inside lambdas that may shadow f; 3 in 10: a lambda over one call of a global function with its parameters used in order / reordered / repeated / omitted / next to literals, lambdas (also with the parameter only in the function position of a nested call) or calls, bare or applied or nested under a shadowing lambda; otherwise programs from the C21 generator extended with strings, query literals and the query builders (and or typed keyed tagged) and, 1 in 3, with collection values ((collection p…) with 0..3 pairs) and the variadic call f args…, 1 in 6 with an ill-typing edit. non-trivial = Simplify returned a tree different from its argument; distinct = by hash of the program text",
 		Quick:    4000,
 		Thorough: 60000,
 		Corpus: func(c *hx.Ctx) {
